@@ -42,6 +42,40 @@ pub fn run(r: &mut Report) {
                     bad.push(format!("declared {:?} accepted, written back as {}", x, serde_json::to_string(&w).unwrap_or_default().chars().take(120).collect::<String>())); } } }
         r.case("statement-with-near-miss-predicate-type", json!({"documents": n}), "all rejected", format!("{:?}", bad.iter().take(4).collect::<Vec<_>>()), bad.is_empty());
     }
+    // the canonical form (`to_bytes`) of every accepted document parses back to an equal value, whatever text its strings hold:
+    // every control character on its own, quotes, backslashes, touching escapes, non-ASCII
+    {
+        let mut ts: Vec<String> = (0u32..0x20).chain([0x22, 0x5c, 0x7f, 0x80, 0x2028, 0x1f600]).map(|c| format!("c{}d", char::from_u32(c).unwrap())).collect();
+        for t in ["", "plain", "bs-lf\\\nend", "lf-bs\n\\end", "\\n", "q\"\\\"q", "\u{e9}\u{20ac}"] { ts.push(t.to_string()); }
+        let (mut n, mut bad): (usize, Vec<String>) = (0, vec![]);
+        for t in &ts {
+            let preds = vec![json!({"byproducts": {"return-value": 0, "stderr": t, "stdout": t}, "command": [t], "env": {t.as_str(): t}, "materials": {format!("m{}", t): {"sha256": "00"}}, "name": t}),
+                             json!({"builder": {"id": t}, "materials": [{"uri": t, "digest": {"sha256": "00"}}]}),
+                             json!({"builder": {"id": t}, "buildType": t, "materials": []})];
+            let ptypes = ["https://in-toto.io/Link/v0.2", "https://slsa.dev/provenance/v0.1", "https://slsa.dev/provenance/v0.2"];
+            for (i, pd) in preds.iter().enumerate() {
+                n += 1;
+                let parsed: Result<PredicateWrapper, _> = serde_json::from_str(&pd.to_string());
+                match parsed {
+                    Ok(p) => { let bytes = no_panic(|| p.clone().into_trait().to_bytes());
+                        let back: Option<PredicateWrapper> = match &bytes { Ok(Ok(b)) => serde_json::from_slice(b).ok(), _ => None };
+                        if back.as_ref() != Some(&p) && bad.len() < 5 { bad.push(format!("predicate kind {} with text {:?}: canonical form {:?} does not parse back equal", i, t, bytes.map(|b| b.map(|x| String::from_utf8_lossy(&x).chars().take(90).collect::<String>()).map_err(|e| e.to_string())))); } }
+                    Err(e) => { if bad.len() < 5 { bad.push(format!("predicate kind {} with text {:?} rejected: {}", i, t, e)); } }
+                }
+                let st = json!({"_type": "https://in-toto.io/Statement/v0.1", "subject": {format!("s{}", t): {"sha256": "00"}}, "predicateType": ptypes[i], "predicate": pd});
+                n += 1;
+                let parsed: Result<StatementWrapper, _> = serde_json::from_str(&st.to_string());
+                match parsed {
+                    Ok(w) => { let w2: StatementWrapper = serde_json::from_str(&st.to_string()).unwrap();
+                        let bytes = no_panic(|| w2.into_trait().to_bytes());
+                        let back: Option<StatementWrapper> = match &bytes { Ok(Ok(b)) => serde_json::from_slice(b).ok(), _ => None };
+                        if back.as_ref() != Some(&w) && bad.len() < 5 { bad.push(format!("statement with predicate kind {} and text {:?}: canonical form does not parse back equal", i, t)); } }
+                    Err(e) => { if bad.len() < 5 { bad.push(format!("statement kind {} with text {:?} rejected: {}", i, t, e)); } }
+                }
+            }
+        }
+        r.case("canonical-form-parses-back", json!({"documents": n, "texts": ts.len()}), "every accepted document's canonical bytes parse back to an equal value", format!("{:?}", bad), bad.is_empty());
+    }
     // each predicate document is recognised as exactly its own version and round-trips
     let preds = [("https://in-toto.io/Link/v0.2", link_pred()), ("https://slsa.dev/provenance/v0.1", slsa01()), ("https://slsa.dev/provenance/v0.2", slsa02())];
     for (ty, doc) in preds.iter() {
